@@ -124,14 +124,19 @@ func (i *Indexer) Notify(_ context.Context, blk *chain.ExecutedBlock) error {
 // cache.
 // assumes the write lock is held
 func (i *Indexer) insertBlockIntoCache(blk *chain.ExecutedBlock) {
-	if evictedBlk, ok := i.blockHeightToBlock[blk.Block.Hght-i.blockWindow]; ok {
-		// remove the block from the caches
-		delete(i.blockIDToHeight, evictedBlk.Block.GetID())
-		delete(i.blockHeightToBlock, evictedBlk.Block.GetHeight())
-
-		// remove the transactions from the cache.
-		for _, tx := range evictedBlk.Block.Txs {
-			delete(i.txCache, tx.GetID())
+	if blk.Block.Hght >= i.blockWindow {
+		lastEvictedHeight := blk.Block.Hght - i.blockWindow
+		if i.lastHeight != math.MaxUint64 && i.lastHeight+1 == blk.Block.Hght {
+			// consecutive block: at most one block leaves the window
+			i.evictBlockFromCache(lastEvictedHeight)
+		} else {
+			// first block or height gap (e.g. after state sync): every cached block
+			// at or below the new lower bound of the window leaves it
+			for height := range i.blockHeightToBlock {
+				if height <= lastEvictedHeight {
+					i.evictBlockFromCache(height)
+				}
+			}
 		}
 	}
 
@@ -145,6 +150,24 @@ func (i *Indexer) insertBlockIntoCache(blk *chain.ExecutedBlock) {
 		}
 	}
 	i.lastHeight = blk.Block.Hght
+}
+
+// evictBlockFromCache removes the block at the given height, if any, and its
+// transactions from the cache.
+// assumes the write lock is held
+func (i *Indexer) evictBlockFromCache(height uint64) {
+	evictedBlk, ok := i.blockHeightToBlock[height]
+	if !ok {
+		return
+	}
+	// remove the block from the caches
+	delete(i.blockIDToHeight, evictedBlk.Block.GetID())
+	delete(i.blockHeightToBlock, height)
+
+	// remove the transactions from the cache.
+	for _, tx := range evictedBlk.Block.Txs {
+		delete(i.txCache, tx.GetID())
+	}
 }
 
 // storeBlock persist the given block to the database, and deletes a block
